@@ -11,14 +11,14 @@ public API (vh `open`: sheet_names, sheets_metadata, defined_names, worksheet_ra
 worksheet).  i vs m is the tie; i vs s on legal cases outside the known classes is the search.
 Raw cases: perturbed event lists / byte streams (unknown values, missing attributes, truncation,
 bit flips) through M and the real reader — implementation vs model only."""
-import os, json
+import os, json, struct
 import vlib, metagen as mg
 from metagen import hx, hxs, S, E, T, C, O, wire, unwire, attrs_wire, recs_wire, lst
 
 ASSUMPTIONS = [
     "quick-xml maps the serialised XML back to the event list the encoder produced (tokenisation, entity and character-reference unescaping, empty-element expansion); zip / cfb return the stored bytes of a part",
     "the relationship id, Id and Target attribute values contain no character that needs escaping (calamine uses their raw bytes)",
-    "sheet parts / substreams are well formed (cell reading is the domain of C01-C04); xls code page 1200, BIFF8",
+    "sheet parts / substreams are well formed (cell reading is the domain of C01-C04); xls: BIFF8, with a CodePage record of any value (or none) among the globals",
     "ods has no date-system flag at the cell level (dates are ISO strings): the flag conjunct is checked for xlsx, xlsb, xls",
 ]
 KNOWN_IDS = {}    # no known class is left (the four former ones were repaired: notes/C16_fixed.json)
@@ -291,6 +291,23 @@ def xls_case(rng, cid, known_ok=True):
     j1 = style + rng.choice([[], [(0x0031, b"\xc8\x00\x00\x00\xff\x7f\x90\x01\x00\x00\x00\x00\x00\x00\x05\x01A\x00r\x00i\x00a\x00l\x00")]])
     j2 = rng.choice([[], [], [(0x008C, b"\x01\x00\x01\x00")], [(0x00FF, b"")]])
     j3 = rng.choice([[], [], [(0x00FF, b"\x00\x00")], [(0x01C1, bytes(8))]])
+    # the CodePage record: where every producer writes it (behind BOF / InterfaceHdr / WriteAccess),
+    # of any value; sometimes absent, sometimes elsewhere among the globals, sometimes twice
+    r = rng.random()
+    if r < 0.7:
+        j0 = j0 + [mg.codepage_record(rng)]
+    elif r < 0.8:
+        j0 = [mg.codepage_record(rng)] + j0
+    if rng.random() < 0.12:
+        which = rng.choice([1, 2, 3])
+        extra = [mg.codepage_record(rng)]
+        if which == 1:
+            j1 = j1 + extra
+        elif which == 2:
+            j2 = j2 + extra
+        else:
+            j3 = extra + j3
+    wb["codepages"] = [struct.unpack("<H", b[:2])[0] for t, b in j0 + j1 + j2 + j3 if t == 0x0042]
     args = [str(int(wb["d1904"])), str(int(rng.random() < 0.5)), recs_wire(j0), recs_wire(j1), recs_wire(j2),
             recs_wire(j3), tail.hex() or "-", lst(sheets), lst(["%d:%d:%d" % x for x in xtis]), lst(names)]
     return {"id": cid, "fmt": "xls", "wb": wb, "line": "%s\tmeta\txls\t%s" % (cid, "\t".join(args)),
@@ -487,6 +504,11 @@ def run_structured(ctx, cases, tag):
         if fmt == "ods":
             ctx.count("ods:sheet-scoped-names=%d" % sum(len(x) for x in c["wb"].get("lnames", [])))
         ctx.count("%s:date1904=%d" % (fmt, int(c["wb"]["d1904"])))
+        if fmt == "xls":
+            cps = c["wb"].get("codepages", [])
+            ctx.count("xls:codepage-records=%d" % len(cps))
+            for cp in cps:
+                ctx.count("xls:codepage=%d" % cp)
         for n, v, k in c["wb"]["sheets"]:
             ctx.count("%s:%s/%s" % (fmt, v, k))
         if c.get("nonconv"):
@@ -685,7 +707,7 @@ def raw_cases(ctx, n, tag):
         # the xls sheet loop is not part of the model: a damaged BoundSheet position may make the
         # real reader fail inside a substream where the model only checks the slice bound
         if m == "unmodelled":
-            ctx.count("raw:%s:outside-model (BIFF version / code page / BOM in a relationship id)" % fmt)
+            ctx.count("raw:%s:outside-model (BIFF version / BOM in a relationship id)" % fmt)
             keep_or_remove(path, keep=False)
             continue
         if not same(impl, mm):
@@ -767,8 +789,57 @@ def batch(ctx, n, tag):
     run_structured(ctx, cases, tag)
 
 
+def run_fixtures_xls(ctx):
+    """every .xls / .xla fixture of the repository: sheets_metadata / defined_names of the real
+    reader against Meta.xls_parse_workbook on its Workbook stream.  Corpus rule (audit 2): a
+    fixture on which the model answers 'unmodelled' (a BIFF5 BOF) is listed by name in the
+    evidence; tests/sheet_name_parsing.xls (BIFF8 with CodePage 1252, the file that showed audit-2
+    finding XLS-1) is pinned to its sheet list."""
+    import pwgen
+    pinned = {"sheet_name_parsing.xls": "ok/%s:v:ws//?" % hxs("Sheet1")}
+    mlines, ilines, names = [], [], {}
+    for ext, path in vlib.fixtures({"xls", "xla"}):
+        name = os.path.basename(path)
+        cid = "fx_" + name.replace(".", "_").replace(" ", "_")
+        try:
+            data = open(path, "rb").read()
+            st = pwgen.cfb_stream(data, "Workbook") or pwgen.cfb_stream(data, "Book")
+            vba = pwgen.cfb_dir_chain(data) is not None and b"_\0V\0B\0A\0_\0P\0R\0O\0J\0E\0C\0T\0_\0C\0U\0R\0" in pwgen.cfb_dir_chain(data)[1]
+        except Exception:
+            st, vba = None, False
+        if st is None:
+            vlib.fixture_report(ctx, name, "no-workbook-stream (damaged container: C13's domain)")
+            continue
+        mlines.append("%s\tmeta\txlsr\t%s" % (cid, st.hex()))
+        ilines.append("%s\topen\txls\t%s\tsheets;meta;names" % (cid, path))
+        names[cid] = (name, vba)
+    mans = vlib.run_exe(vlib.VM, mlines, timeout=900)
+    ians = ctx.run_impl(ilines, timeout=300)
+    for cid, (name, vba) in names.items():
+        m = mans.get(cid)
+        impl, _ = impl_answer({"fmt": "xls", "wb": {"sheets": []}}, ians.get(cid), [])
+        ctx.traces += 1
+        mm = (m.rsplit("/", 1)[0] + "/?") if m is not None and m.startswith("ok/") else m
+        ii = (impl.rsplit("/", 1)[0] + "/?") if impl.startswith("ok/") else impl
+        if m == "unmodelled":
+            vlib.fixture_report(ctx, name, "unmodelled", "BOF of a BIFF version other than 8")
+        elif same(ii, mm) or (mm is not None and mm.startswith("ok/") and ii in ("err", "panic") and vba):
+            # a workbook with a VBA project: Xls::new reads the project first (C18's domain)
+            vlib.fixture_report(ctx, name, "agree", ii[:3])
+            ctx.nontrivial(cid + ii)
+        elif mm is not None and mm.startswith("ok/") and ii in ("err", "panic"):
+            vlib.fixture_report(ctx, name, "sheet-loop-outside-model", ii)
+        else:
+            vlib.fixture_report(ctx, name, "DISAGREE")
+            ctx.disagreements.append({"function": "meta-fixture-xls", "case": cid, "impl": impl, "model": m, "file": name})
+        if name in pinned and ii != pinned[name]:
+            ctx.violations.append({"case": "repository fixture tests/%s" % name, "expected": pinned[name], "actual": ii,
+                                   "model": m, "what": "xls file %s: sheet list of the fixture (BIFF8 with CodePage 1252, audit-2 XLS-1)" % name})
+
+
 def run(ctx):
     run_structured(ctx, corpus(ctx), "k")
+    run_fixtures_xls(ctx)
     batch(ctx, ctx.scale(1600, 24000), "s")
     raw_cases(ctx, ctx.scale(800, 12000), "r")
 
